@@ -154,3 +154,15 @@ func specProbeID(u *udpDriver, ttl uint8) uint16 {
 //@ ensures[C01.recv.fresh]  ret0 != nil ==> fresh(ret0)
 //@ ensures[C09.recv.state]  forall(k, 0, 65536, u.sentProbes[k] == old(u.sentProbes[k]) && has(u.sentProbes, k) == old(has(u.sentProbes, k)))
 //@ modifies u.mu, packets.FrameParser.IP4, packets.FrameParser.IP6, packets.FrameParser.TCP, packets.FrameParser.ICMP4, packets.FrameParser.ICMP6, packets.FrameParser.Payload, packets.FrameParser.Layers, gopacket.DecodingLayerParser, elems(u.buffer), ghost clock, ghost ioFail
+
+// C11 isolation (strict mode, as the runner configures UDP): a packet genuine for two runs forces them to share the
+// target address:port and the local address:port, i.e. the flow that identifies a UDP run.
+func specIsolated(a, b *udpDriver, p *packets.FrameParser, ta, tb uint8) bool {
+	ga := specGenuine4(a, p, ta) || specGenuine6(a, p, ta)
+	gb := specGenuine4(b, p, tb) || specGenuine6(b, p, tb)
+	return !(ga && gb) || a.config.LoosenICMPSrc || b.config.LoosenICMPSrc || (specTarget(a) == specTarget(b) && specLocal(a) == specLocal(b))
+}
+
+//@ func specIsolated
+//@ requires[pre.nonnil]   a != nil && b != nil && p != nil && a.config != nil && b.config != nil
+//@ ensures[C11.iso.udp]   ret0
